@@ -210,6 +210,9 @@ pub enum Op {
     ForgedWhoAreYou { d: u16, from: AddrSel, to: u8, random_nonce: bool },
     /// V submits a request to the contact (public key of x, attacker address z)
     SubmitToAttacker { x: XSel, z: u8, with_record: bool, body: Body },
+    /// an ordinary message packet in honest peer `peer`'s name, presented from that peer's address to
+    /// node `to`, encrypted under a key anybody can guess (0: all-zero, 1: all-0xff, 2: 0x01..0x10)
+    GuessedKeyMessage { peer: u8, to: u8, key: u8, body: ForgedBody },
 }
 
 #[derive(Clone, Copy, Debug, PartialEq, Eq, Hash, Serialize, Deserialize)]
